@@ -95,10 +95,13 @@ def pseudo(nphi, sphi, p):
     tth = acos(np.clip(kf @ ki, -1, 1))
     res["theta"] = degrees(tth / 2)
     res["ttheta"] = degrees(tth)
-    res["qaz"] = degrees(atan2(kf[0], kf[2]))
+    # azimuths are undefined at their poles (k_f along the beam: 2theta = 0 or 180; n along y): omitted there
+    if math.hypot(kf[0], kf[2]) > 1e-7:
+        res["qaz"] = degrees(atan2(kf[0], kf[2]))
     if nphi is not None:
         n = Z @ (np.asarray(nphi, float) / np.linalg.norm(nphi))
-        res["naz"] = degrees(atan2(n[0], n[2]))
+        if math.hypot(n[0], n[2]) > 1e-7:
+            res["naz"] = degrees(atan2(n[0], n[2]))
         res["alpha"] = degrees(asin(np.clip(-n @ ki, -1, 1)))
         res["beta"] = degrees(asin(np.clip(n @ kf, -1, 1)))
         q = kf - ki
